@@ -175,7 +175,7 @@ def check_success(obs, case, image, counters):
     lst_free = any(c is None for c in case["listing"])
     changed = set(obs["changed"])
     # a stale copy overwritten with identical bytes does not show in 'changed': use write events too
-    written = set(p for (_s, op_, p, _d) in obs["events"] if op_ in ("create", "truncate"))
+    written = set(p for (_s, op_, p, _d) in obs["events"] if op_ in ("create", "truncate", "open-rw"))
     for p in expected:
         if p not in written:
             v.append(("output-missing", "requested output %s (%s) was not written at the path the option/directive names"
@@ -243,7 +243,7 @@ def check_faulted(obsf, obs0, case):
         v.append(("output-io-error-swallowed", "an output-side I/O error %s occurred but the run reports success" % (outs_f[0],)))
     state = {}
     for (_seq, op_, path, detail) in obsf["events"]:
-        if op_ in ("create", "truncate"):
+        if op_ in ("create", "truncate", "open-rw"):
             state[path] = "open"
         elif op_ == "close":
             state[path] = "closed"
